@@ -30,6 +30,13 @@ def seq_probe(job):
     return out, singles
 
 
+def regional_probe(job):
+    """one process: the base language first, then the regional locale (by name, and by language + region) with a word of its own"""
+    base_s, base, loc, s = job
+    lang, region = loc.rsplit("-", 1)
+    return [lib_gdd(mk(base_s, langs=[base])), lib_gdd(mk(s, locales=[loc])), lib_gdd(mk(s, langs=[lang], region=region))]
+
+
 def run(ctx):
     tier = ctx["tier"]
     R = rng("c13")
@@ -163,6 +170,32 @@ def run(ctx):
             if got != first:
                 viol.append({"law": "multi-language result = first successful single-language result (same list, both orders, one process)", "s": s, "languages": L,
                              "use_given_order": given, "order_used": usedorder, "multi": got, "expected": first})
+    # a regional locale used after its base language in one process, on a month name only the regional vocabulary has ('3 juill 2015' in
+    # fr-CA after French was used): the selected locale's own conventions apply, whatever was used before
+    import calendar as _cal
+    ld2 = langdata()
+    bases = {r["name"]: dict(r["words"]) for r in ld2["langs"]}
+    reg_jobs = []
+    for r in ld2["locales"]:
+        if "-" not in r["name"] or r["lang"] not in bases:
+            continue
+        wl, wb = dict(r["words"]), bases[r["lang"]]
+        allw = collections.Counter(w.lower() for k, ws in wl.items() for w in ws)
+        bm = (wb.get("march") or wb.get("may") or [None])[0]
+        for mi, mname in enumerate(_cal.month_name[1:], 1):
+            own = [w for w in wl.get(mname.lower(), []) if w not in wb.get(mname.lower(), []) and allw[w.lower()] == 1 and " " not in w and not any(c.isdigit() for c in w)]
+            if own and bm:
+                reg_jobs.append((("1 %s 2015" % bm, r["lang"], r["name"], "3 %s 2015" % own[0]), mi))
+                break
+    if tier == "quick":
+        reg_jobs = R.sample(reg_jobs, min(len(reg_jobs), 24)) + [j for j in reg_jobs if j[0][2] in ("fr-CA", "pt-PT", "ar-DZ")]
+    for (job, mi), outs in zip(reg_jobs, pmap(regional_probe, [j for j, _ in reg_jobs], chunksize=1, force=True)):
+        want = "2015-%02d-03 00:00:00.000000|naive|day|%s" % (mi, job[2])
+        for how, o in zip(("locales=[%r]" % job[2], "languages=[%r], region" % job[1]), outs[1:]):
+            got = o.get("r") if "r" in o else "ERR:" + o["e"]
+            if got != want:
+                viol.append({"law": "a regional locale selected after its base language was used applies its own vocabulary", "s": job[3], "selection": how,
+                             "earlier_call": {"s": job[0], "languages": [job[1]]}, "expected": want, "observed": got})
     auto2 = []
     for s, i in auto:
         r = val(i)
@@ -189,7 +222,7 @@ def run(ctx):
     cov = {"evaluations": len(cases) + len(det), "distinct_nontrivial": len(distinct),
            "rule": "corpus strings × random language subsets/orderings (containing or not the detected language), use_given_order on/off, DEFAULT_LANGUAGES, region vs locale, full autodetection sample; non-trivial = distinct strings with a multi-language result",
            "samples": [{"s": p[0], "languages": p[2], "use_given_order": p[4], "default_languages": p[7]} for p in plan[:5]],
-           "laws_checked": 10, "same_list_both_orders_in_one_process": len(seq_jobs), "law_violations": len(viol), "region_locale_pairs": len(reg), "multi_language_region_selections": len(multi), "of_which_parsed": len(byname), "autodetect_all_languages": len(auto),
+           "laws_checked": 11, "regional_after_base_sequences": len(reg_jobs), "same_list_both_orders_in_one_process": len(seq_jobs), "law_violations": len(viol), "region_locale_pairs": len(reg), "multi_language_region_selections": len(multi), "of_which_parsed": len(byname), "autodetect_all_languages": len(auto),
            "model_compared": len(sub) if "model-build" not in ctx["broken"] else 0, "model_rejected": dict(rej), "model_drift": len(drift),
            "model_drift_samples": [{"s": d["case"]["s"], "langs": d["case"].get("langs"), "model": d["model"], "lib": d["lib"]} for d in drift[:5]]}
     return {"violations": out, "known": [], "coverage": cov, "level": "proof",
